@@ -213,7 +213,7 @@ pub fn gen_rcv(r: &mut Rng, thorough: bool, cx: &mut Ctx) {
                 let n = r.range(1, 255); let cut = r.below(n + 1);
                 toks.push(0); toks.push(n);
                 for _ in 0..cut { toks.push(r.range(1, 255)); }
-                toks.push(257);                                                   // hard read error / io error
+                toks.push(if link == 2 { r.pick(&[257, 259, 260, 261]) } else { 257 });   // hard read error / io error of some kind
                 if r.chance(1, 3) { let pn = r.below(30) as usize; let p = gen_packet(r, pn); packet_tokens(link, &p, &mut toks); }
             }
             let p = gen_packet(r, 20); packet_tokens(link, &p, &mut toks);
@@ -287,6 +287,12 @@ pub fn gen_lnk(r: &mut Rng, thorough: bool, cx: &mut Ctx) {
                 let p = gen_packet(r, n); show_packet(&p, &mut l);
             }
             if k % 5 == 3 { l.push(1); }      // full duplex: the receiving node transmits before it polls
+            cx.emit(&l);
+        }
+        // long sequences of small packets (counters kept across packets)
+        for &np in (if thorough { &[300u64, 5000][..] } else { &[300u64][..] }) {
+            let mut l = vec![link, 0, np];
+            for _ in 0..np { let n = r.below(13) as usize; let p = gen_packet(r, n); show_packet(&p, &mut l); }
             cx.emit(&l);
         }
         // large packets (4096 frames in the thorough tier)
